@@ -94,6 +94,11 @@ CLAIMED = {
     level="For a symbolic unit quaternion the matrix is polynomial, and each method's arm is a closed form whose output must reproduce the matrix identically; this decides correctness on the whole arm (including the rarely sampled ones) exactly. The pivot rule is the structural reason the default method is valid at half-turns and the identity. LAPACK accuracy and sign(0) at exact half-turns of the closed-form methods are not decided.",
     note="Unit quaternion as symbols with w^2 = 1 - x^2 - y^2 - z^2; sign/abs atoms with sign*abs = id; generic scalar part positive for hughes.",
     ref="DESIGN.md §2 C02"),
+ "C04": dict(
+    technique="AVN eigen/fixed-point identities under the symbolic measurement model (Davenport K, OLEQ/ROLEQ W with twin, FLAE W, QUEST characteristic polynomial / Newton derivative / root and closed-form result at consistent data, SAAM and TRIAD closed forms), FLOW and CACHE-COHERENT structural rules",
+    level="For a symbolic unit attitude, symbolic references and positive scales, the matrices these estimators hand to their eigen-solvers / iterations have the true attitude as the relevant eigenvector identically, and the closed forms (QUEST at its root, SAAM, TRIAD) return it identically; this is exact on the whole of SO(3) in general position. Convergence of the Newton / power iterations, FAMC, FQA, Tilt, AQUA's branch selection and the singular poses are not decided.",
+    note="Direction (q or q*) is whichever the code satisfies exactly and is recorded in the evidence; unit symbols with declared relations.",
+    ref="DESIGN.md §2 C04"),
 }
 
 NOT_YET = "check not built yet in this session (work in progress; see DESIGN.md §2 for the planned static rules)"
